@@ -161,7 +161,7 @@ Theorem reject_infectiousness_unknown_compartment :
 Proof. intro H. enter. congruence. Qed.
 
 Theorem reject_mixing_on_partial mm :
-  s_mix s = Some mm -> list_str_eqb (s_comps s) (m_orig m) = false -> rejected (stratify_with m s0).
+  s_mix s = Some mm -> set_eq_str (s_comps s) (m_orig m) = false -> rejected (stratify_with m s0).
 Proof.
   intros Hm H. enter. rewrite Hm. cbn [bind]. reject. congruence.
 Qed.
@@ -193,7 +193,7 @@ Proof.
 Qed.
 
 Theorem reject_age_on_partial :
-  is_age (s_kind s) = true -> list_str_eqb (s_comps s) (m_orig m) = false -> rejected (stratify_with m s0).
+  is_age (s_kind s) = true -> set_eq_str (s_comps s) (m_orig m) = false -> rejected (stratify_with m s0).
 Proof.
   intros Hk H. enter.
   destruct (s_mix s); cbn [bind]; reject; destruct (is_strain (s_kind s)); cbn [bind]; reject;
